@@ -250,6 +250,11 @@ def prepared_files(scratch, L, lm, maxlen, res, prop):
                 yield P
 
 
+def printed(r):
+    """the record as the parser keeps it: gaftools reads the query name up to its first blank (as C03 and C16 assume too)"""
+    return rgfa.Rec(r.qname.split(" ")[0], *r.cols()[1:], opt=list(r.opt)).line()
+
+
 def many_records(res, scratch, n):
     """one node selected by thousands of records (beyond any plausible output batching size), plain and converted"""
     L = gen.Layout((2, 1), "separated2", 1)
@@ -258,7 +263,8 @@ def many_records(res, scratch, n):
     urecs = []
     for i in range(n):
         r = base[i % len(base)]
-        urecs.append(rgfa.Rec(f"m{i}", *r.cols()[1:], opt=list(r.opt)))
+        # every seventh read name carries blanks (GraphAligner keeps the FASTA description): columns are tab-separated only
+        urecs.append(rgfa.Rec(f"m{i} len=9 ch=3" if i % 7 == 3 else f"m{i}", *r.cols()[1:], opt=list(r.opt)))
     for stable in (False, True):
         recs = [rgfa.to_stable_model(g, r) for r in urecs] if stable else urecs
         P = Prepared(scratch, g, L, "realistic", stable, "many", recs, "plain", "many")
@@ -275,8 +281,8 @@ def many_records(res, scratch, n):
             want = [recs[i] for i in P.touch["s1"]]  # (a stable record that collapsed to a contig interval may lie on s2 only)
             if out.kind != "ok" or len(lines) != len(want):
                 res.fail("C04/many-records:count", f"view -n s1{' -f ' + fmt if fmt else ''} on a {'stable' if stable else 'unstable'} file of {n} records, {len(want)} of which traverse s1: {out.brief()}, {len(lines)} lines printed", {"many": n})
-            elif fmt is None and lines != [r.line() for r in want]:
-                k = next(i for i, (a, b) in enumerate(zip(lines, want)) if a != b.line())
+            elif fmt is None and lines != [printed(r) for r in want]:
+                k = next(i for i, (a, b) in enumerate(zip(lines, want)) if a != printed(b))
                 res.fail("C04/many-records:content", f"view -n s1 on a file of {n} records: line {k + 1} differs from the {k + 1}-th record that traverses s1", {"many": n})
 
 
